@@ -493,6 +493,26 @@ func (e *SpecEnv) callExpr(n *ECall, cur, old *State) Val {
 		case "fresh":
 			v := e.eval(n.Args[0], cur, old)
 			return scalar(boolT, Ge(v.L[0], e.freshBase()))
+		case "rootfresh":
+			// allocated since the root function under verification was entered
+			v := e.eval(n.Args[0], cur, old)
+			return scalar(boolT, Ge(v.L[0], vc.A0))
+		case "typeis":
+			v := e.eval(n.Args[0], cur, old)
+			tn := exprText(n.Args[1])
+			star := false
+			if u, ok := n.Args[1].(*EUn); ok && u.Op == "*" {
+				star = true
+				tn = exprText(u.X)
+			}
+			t := e.resolveType(tn)
+			if t == nil || len(v.L) != 2 {
+				return e.fail("typeis(interface value, Type)")
+			}
+			if star {
+				t = types.NewPointer(t)
+			}
+			return scalar(boolT, Eq(v.L[0], vc.typeTag(t)))
 		case "freshOrNil":
 			v := e.eval(n.Args[0], cur, old)
 			return scalar(boolT, Or(Eq(v.L[0], Zero), Ge(v.L[0], e.freshBase())))
@@ -821,6 +841,17 @@ func (e *SpecEnv) assignTarget(a *SpecClause, pre *State) *AssignTarget {
 				name = e.scopePkg().Name() + "." + name
 			}
 			return &AssignTarget{Text: a.Text, Glob: "G|" + name}
+		}
+	}
+	if c, ok := x.(*ECall); ok {
+		if id, ok := c.Fun.(*EIdent); ok && id.Name == "anyelems" && len(c.Args) == 1 {
+			// the elements of every slice of the given element type
+			t := e.resolveType(exprText(c.Args[0]))
+			if t == nil {
+				e.fail("assigns %s: unknown type", a.Text)
+				return nil
+			}
+			return &AssignTarget{Text: a.Text, Base: Zero, Root: "E|" + typeKey(t), Any: true}
 		}
 	}
 	if s, ok := x.(*EStar); ok {
